@@ -348,6 +348,30 @@ def json_mutations():
         d["data"] = rows
         return d
 
+    def _dense(d):
+        n, m = d["shape"]
+        rows = [[0.0] * m for _ in range(n)]
+        for r, c, v in d["data"]:
+            rows[r][c] = float(v)
+        d["matrix_type"] = "dense"
+        d["data"] = rows
+        return d
+
+    # element types inside a *dense* document (numpy-style promotion of a
+    # whole row must not hide one element of the wrong type)
+    for nm, val in (("int-among-floats", 3), ("string-cell", "2.5"),
+                    ("null-cell", None), ("bool-cell", True)):
+        def cell(d, val=val):
+            if d.get("matrix_element_type") != "float" or \
+                    not d["shape"][0] or d["shape"][1] < 2:
+                return None
+            d = _dense(d)
+            d["data"][-1][0] = val
+            # at least one genuine float stays in the same row
+            d["data"][-1][1] = 2.5
+            return d
+        add("dense:" + nm, "wrong-type")(cell)
+
     @add("benign:int-element-type", "benign")
     def _(d):
         if any(float(t[2]) != int(t[2]) or abs(t[2]) > 2 ** 50
